@@ -39,12 +39,30 @@ def make_lp(rng):
 def states(rng):
     lp, n, m = make_lp(rng)
     solve = rng.choice(["SOLVE h0 PRIMAL", "SOLVE h0 DUAL", "SOLVE h0 EXACT P"])
+    # a state whose name tables have a history: 42 more rows and columns (among them the names rb0 / raU, which hash alike
+    # for every table size), then 14 deletes from the front of each group - freed slots are refilled from the end, hash
+    # chains are relinked, the name -> index maps are rebuilt lazily
+    K, D = 40, 14
+    grown = lp + ["NEWROW h0 1 L e%d" % k for k in range(K)] + ["NEWROW h0 1 L rb0", "NEWROW h0 1 L raU"] + ["DELROW h0 %d" % m] * D + \
+        ["NEWCOL h0 1 0 1 f%d" % k for k in range(K)] + ["NEWCOL h0 1 0 1 rb0", "NEWCOL h0 1 0 1 raU"] + ["DELCOL h0 %d" % n] * D
     return [
         ("empty", ["CREATE h0 p MIN"], 0, 0),
         ("loaded", lp, n, m),
         ("solved", lp + [solve], n, m),
         ("edited", lp + [solve, "CHGRHS h0 0 7", "CHGOBJ h0 0 2"], n, m),
+        ("after-deletes", grown, n + K + 2 - D, m + K + 2 - D),
     ]
+
+
+def survivor_probes():
+    """every name that survived the deletes of state after-deletes, offered again as a NEW row / column name"""
+    K, D = 40, 14
+    P = []
+    for nm in ["e%d" % k for k in range(D, K)] + ["rb0", "raU"]:
+        P.append(dict(fn="QSnew_row", role="duplicate-name-after-deletes", op="NEWROW h0 1 L %s" % nm, expect="model"))
+    for nm in ["f%d" % k for k in range(D, K)] + ["rb0", "raU"]:
+        P.append(dict(fn="QSnew_col", role="duplicate-name-after-deletes", op="NEWCOL h0 1 0 1 %s" % nm, expect="model"))
+    return P
 
 
 def idx_values(n, m):
@@ -233,7 +251,7 @@ def main():
     nprobe = 0
     for rd in range(rounds):
         for sname, setup, n, m in states(rng):
-            plist = probes(n, m, rng)
+            plist = probes(n, m, rng) + (survivor_probes() if sname == "after-deletes" else [])
             # one case per state; every probe in its own FORK section; section 0 = baseline follow-up without a probe
             body = ["CASE %s%d" % (sname, rd), "RESET"] + setup + ["POISON h0"]
             sections = [dict(fn="baseline", role="-", op="ECHO nop", expect="any", pre=[])] + plist
